@@ -25,6 +25,10 @@ CONSTANTS
   LateStartKinds <- %(late)s
   LateListenerLeaks = %(leak)s
   DynamicKinds <- %(dyn)s
+  FailKinds <- %(fail)s
+  GraceTicks = %(grace)d
+  WaitFromSignal = %(wfs)s
+  FailedServerForgotten = %(forgot)s
   MaxSignals = %(sig)d
   SecondSignalKills = %(kill)s
   MaxServers = %(ms)d
@@ -43,7 +47,7 @@ WAIT_TICKS = 4
 
 
 def cfg(**k):
-    d = dict(spec="Spec", ms=2, mi=2, st=1, gid="FALSE", ko="MCKindOrder", do="MCDurOrder", late="MCNoKinds", leak="FALSE", dyn="MCNoKinds", sig=0, kill="FALSE")
+    d = dict(spec="Spec", ms=2, mi=2, st=1, gid="FALSE", ko="MCKindOrder", do="MCDurOrder", late="MCNoKinds", leak="FALSE", dyn="MCNoKinds", sig=0, kill="FALSE", fail="MCNoKinds", grace=0, wfs="FALSE", forgot="FALSE")
     d.update(k)
     return CFG % d
 
@@ -99,6 +103,8 @@ def run(ctx):
         "a signal during start-up: proxy.serve is taken apart by the harness (server put into the registry; handed its listener 50 ms after Shutdown was called) for http, https, tcp, tcp+sni, tcp+tls and grpc; the tcpproxy-based https+tcp+sni listener and moments inside ListenTCP are not covered",
         "stalled connections: the client connects and sends nothing (stall0), half of its first protocol message (stall1: TLS ClientHello, HTTP/2 preface, HTTP request head, tunnel line) or that message and nothing after it (stall2: ClientHello without the rest of the handshake, preface without SETTINGS), 30 ms before Shutdown is called; nothing is asserted about them except that they do not delay the return",
         "a listener closed at run time: kind tcp-dyn = what main's refresh loop starts for a port of a proto=tcp-dynamic listener with a cert source (ListenAndServeTCP + tcp.DynamicProxy + TLS); 'reset' work = a TLS tunnel whose client connection is reset (SO_LINGER 0) once the upstream has the request, the upstream keeps its side open; proxy.CloseProxy(addr) is called before Shutdown as the loop does when the route of the port goes; nothing is asserted about work on a listener closed that way",
+        "a listener that fails at run time: the harness starts the server through proxy.serve (where every ListenAndServe* ends) on a listener whose Accept returns a non-temporary error on command, waits for Serve to return, then calls Shutdown as main does after its exit.Fatal; covered for http, https, tcp, tcp+sni, tcp+tls, grpc",
+        "proxy.deregistergraceperiod: in the package harness the grace period is just time before Shutdown is called; the wiring in main (wait counted from the start of the shutdown, not from the signal) is bound by the binary part, which runs with deregistergraceperiod=0.6s and a 1.3 s request in flight (wait 1 s): it must complete; an incomplete request is a violation only if the client saw it end earlier than 0.25 s before grace+wait",
         "a further signal while the shutdown is under way: in the package harness a second proxy.Shutdown call; in the built binary (now also in quick) SIGTERM followed 0.1 s later by SIGHUP / SIGTERM / SIGINT (seed picks one, thorough all three) with a 0.3 s request in flight and proxy.shutdownwait = 1 s: the request must complete and the process must exit by itself (exit code >= 0)",
         "the harness never blocks on fabio's own registry lock (TryLock with a 3 s limit): a lock left behind makes the shutdown that follows a bounded-return violation and ends the run",
         "besides the served-connection probe at +100 ms, a plain TCP connect at W/2 and at 0.9 W after the start must be refused for every listener (every listener of fabio closes its socket first; being accepted and dropped later is only tolerated at +100 ms)",
@@ -120,13 +126,18 @@ def run(ctx):
     sink5 = os.path.join(ctx.tmp, "c18.simedge")
     sink6 = os.path.join(ctx.tmp, "c18.late")
     sink7 = os.path.join(ctx.tmp, "c18.dyn")
+    sink9 = os.path.join(ctx.tmp, "c18.fail")
     jobs = [
+        # a listener fails at run time (Accept returns an error for good) with work in flight; then the shutdown
+        # (in the same run: a signal during start-up -- servers that are in the registry but have not been handed
+        # their listener yet)
+        ("gen_late_fail", dict(cfg_text=cfg(spec="GenSpec", ms=2, mi=1, st=1, fail="MCFailKinds", late="MCLateKinds"), json_sink=sink9, workers=2,
+                               timeout=ctx.pick(300, 900))),
         # a listener closed at run time (proxy.CloseProxy: the route of a tcp-dynamic port went) with a tunnel on it
         # whose client connection was reset; later the shutdown; and a further signal while it is under way
         ("gen_dyn", dict(cfg_text=cfg(spec="GenSpec", ms=2, mi=ctx.pick(1, 2), st=1, ko="MCKindOrderDyn", do="MCDurOrderDyn", dyn="MCDynKinds", sig=1),
                          json_sink=sink7, workers=2, timeout=ctx.pick(300, 900))),
-        # a signal during start-up: servers that are in the registry but have not been handed their listener yet
-        ("gen_late", dict(cfg_text=cfg(spec="GenSpec", ms=2, mi=1, st=1, late="MCLateKinds"), json_sink=sink6, workers=2, timeout=ctx.pick(300, 900))),
+
         ("gen_edge", dict(cfg_text=cfg(spec="GenSpec", ms=2, mi=ctx.pick(1, 2), st=1, do="MCDurOrderEdge"), json_sink=sink4, workers=4, timeout=ctx.pick(300, 1500))),
         ("sim_edge", dict(cfg_text=cfg(spec="GenSpec", ms=7, st=1, do="MCDurOrderEdge"), json_sink=sink5, simulate=ctx.pick(600, 4000), depth=80, seed=ctx.seed, timeout=600)),
         ("gen", dict(cfg_text=cfg(spec="GenSpec", ms=2, st=ctx.pick(1, 2)), json_sink=sink, workers=4, timeout=ctx.pick(300, 1500), coverage=ctx.thorough)),
@@ -136,11 +147,15 @@ def run(ctx):
     ]
     sink8 = os.path.join(ctx.tmp, "c18.dyn2")
     if ctx.thorough:
+        # proxy.deregistergraceperiod: the wait counts from the start of the shutdown, not from the signal
+        jobs.append(("mc_grace", dict(cfg_text=cfg(ms=2, grace=2), workers=2, timeout=900)))
         # proxy.CloseProxy is an exported function: also on a listener main itself never closes at run time
         jobs.append(("gen_dyn_api", dict(cfg_text=cfg(spec="GenSpec", ms=2, mi=1, st=1, ko="MCKindOrderDynApi", do="MCDurOrderDyn", dyn="MCDynKindsApi"),
                                          json_sink=sink8, workers=2, timeout=900)))
         jobs.append(("mc3", dict(cfg_text=cfg(ms=3, st=1, ko="MCKindOrder4"), workers=4, timeout=1500)))
         jobs.append(("mc_deviation_late", dict(cfg_text=cfg(ms=1, mi=1, late="MCLateKinds", leak="TRUE"), workers=2, timeout=300)))
+        jobs.append(("mc_deviation_grace", dict(cfg_text=cfg(ms=1, grace=2, wfs="TRUE"), workers=2, timeout=300)))
+        jobs.append(("mc_deviation_failed", dict(cfg_text=cfg(ms=1, mi=1, fail="MCFailKinds", forgot="TRUE"), workers=2, timeout=300)))
         jobs.append(("mc_deviation_signal", dict(cfg_text=cfg(ms=1, sig=1, kill="TRUE"), workers=2, timeout=300)))
     results = {}
 
@@ -171,6 +186,10 @@ def run(ctx):
             if r.violated != "NoAcceptAfterStart":
                 ctx.inconclusive("model self-test: LateListenerLeaks=TRUE should violate NoAcceptAfterStart, got %r %r" % (r.violated, r.error))
                 return
+        elif name in ("mc_deviation_grace", "mc_deviation_failed"):
+            if r.violated != "ShortCompletes":
+                ctx.inconclusive("model self-test: %s should violate ShortCompletes, got %r %r" % (name, r.violated, r.error))
+                return
         elif name == "mc_deviation_signal":
             if r.violated != "ShortCompletes":
                 ctx.inconclusive("model self-test: SecondSignalKills=TRUE should violate ShortCompletes, got %r %r" % (r.violated, r.error))
@@ -196,8 +215,8 @@ def run(ctx):
             and any(i["dur"] == "short" and i["at"] == s["tstart"] for i in s["items"])
             and (set(s["kinds"]) - {i["srv"] for i in s["items"]}) & {"http", "https", "grpc"}]
     mute = [s for s in small if any(i["dur"] == "mute" for i in s["items"])]
-    chosen = (stratified(small, ctx.pick(6, 220), rnd) + stratified(big, ctx.pick(2, 40), rnd) + stratified(idle, ctx.pick(2, 18), rnd)
-              + stratified(mute, ctx.pick(2, 12), rnd) + stratified(twins, ctx.pick(2, 24), rnd))
+    chosen = (stratified(small, ctx.pick(4, 220), rnd) + stratified(big, ctx.pick(2, 40), rnd) + stratified(idle, ctx.pick(2, 18), rnd)
+              + stratified(mute, ctx.pick(1, 12), rnd) + stratified(twins, ctx.pick(1, 24), rnd))
     # (d) work that ends just within the wait, on every kind; (e) connections that never get as far as a
     # request (silent, or stuck in the middle of the TLS ClientHello), on every kind -- fewest scenarios
     # that cover all kinds first, then a stratified slice
@@ -226,7 +245,7 @@ def run(ctx):
         ctx.inconclusive("the generator produced no edge / stalled-connection work for %s" % sorted(edge_missing | stall_missing))
         return
     # (f) servers handed their listener after shutdown began: fewest scenarios that cover every such kind
-    lates = sorted((s for s in read(sink6) if s.get("late")), key=lambda x: json.dumps(x, sort_keys=True))
+    lates = sorted((s for s in read(sink9) if s.get("late") and not s.get("failed")), key=lambda x: json.dumps(x, sort_keys=True))
     rnd.shuffle(lates)
     late_cover, todo = [], {"http", "https", "tcp", "tcp+sni", "grpc", "tcp+tls"}
     while todo:
@@ -260,8 +279,27 @@ def run(ctx):
             ctx.inconclusive("the generator produced no scenario that closes a https+tcp+sni listener at run time")
             return
         dyn_cover += stratified(api, 6, rnd)
+    # (h) a listener that failed at run time with short work in flight on it, alone (so that nothing else keeps
+    #     the shutdown from returning) -- every kind -- and next to other listeners
+    fails = sorted((s for s in read(sink9) if s.get("failed")), key=lambda x: json.dumps(x, sort_keys=True))
+    rnd.shuffle(fails)
+    fail_cover, todo = [], {"http", "https", "tcp", "tcp+sni", "grpc", "tcp+tls"}
+
+    def all_failed_busy(sc):    # every listener of the scenario failed, each with short work in flight at the start
+        return (not sc.get("late") and sorted(sc["failed"]) == sorted(sc["kinds"])
+                and all(any(i["srv"] == k and i["dur"] == "short" and i["at"] == sc["tstart"] for i in sc["items"]) for k in sc["kinds"]))
+    cands = [s for s in fails if all_failed_busy(s)]
+    while todo:
+        best = max(cands, key=lambda sc: len(set(sc["kinds"]) & todo), default=None)
+        if best is None or not set(best["kinds"]) & todo:
+            ctx.inconclusive("the generator produced no scenario with a failed listener carrying short work for %s" % sorted(todo))
+            return
+        fail_cover.append(best)
+        todo -= set(best["kinds"])
+    if ctx.thorough:
+        fail_cover += stratified([s for s in fails if len(s["kinds"]) == 2], 16, rnd)
     small_edge = [s for s in read(sink4) if s["items"]]
-    chosen += edge_cover + stall_cover + late_cover + dyn_cover + stratified(small_edge, ctx.pick(1, 40), rnd)
+    chosen += edge_cover + stall_cover + late_cover + dyn_cover + fail_cover + stratified(small_edge, ctx.pick(1, 40), rnd)
     if not idle or not mute or not twins:
         ctx.inconclusive("the generator produced no idle-listener / half-closed-tunnel / shared-port scenario")
         return
@@ -282,7 +320,11 @@ def run(ctx):
     cases = os.path.join(ctx.tmp, "c18.cases")
     vf.write_ndjson(cases, allsc)
     ctx.log("playing %d scenarios (of %d + %d generated)" % (len(chosen), len(small), len(big)))
+    # the built binary (its own process and ports) is exercised while the scenarios are played
+    bt = threading.Thread(target=binary, args=(ctx,))
+    bt.start()
     r = run_harness(ctx, cases, "C18 scenarios", timeout=ctx.pick(400, 1500))
+    bt.join()
     if r is None:
         return
     s = r.summary
@@ -309,7 +351,6 @@ def run(ctx):
         ctx.inconclusive("fabio left its registry of servers locked (reported above where it happened): %d scenarios could not be played" % s.get("not_played", 0))
     if s.get("registry_left"):
         ctx.inconclusive("harness left %d servers in the registry" % s["registry_left"])
-    binary(ctx)
 
 
 # ---------------------------------------------------------------------------------------------------
@@ -363,6 +404,7 @@ def binary_once(ctx, signame, second):
 
     short_s = 0.3                       # work that finishes well within the wait (3.3x below it)
     short_end = []
+    mid_s = 1.3
 
     def serve_one(c):
         try:
@@ -372,6 +414,9 @@ def binary_once(ctx, signame, second):
                 time.sleep(short_s)
                 c.sendall(b"5\r\ndone\n\r\n0\r\n\r\n")
                 short_end.append(time.time())
+            elif b"/mid" in req:            # outlasts signal+wait, ends well before grace+wait
+                time.sleep(mid_s)
+                c.sendall(b"5\r\ndone\n\r\n0\r\n\r\n")
         except OSError:
             short_end.append(time.time())
 
@@ -386,12 +431,13 @@ def binary_once(ctx, signame, second):
     threading.Thread(target=upstream, daemon=True).start()
     hp, tp, ui, dp = free_port(), free_port(), free_port(), free_port()
     wait_s = 1.0
+    grace_s = 0.6                       # proxy.deregistergraceperiod: the wait counts from the start of the shutdown
     args = [exe, "-registry.backend", "static", "-registry.static.routes",
             "route add web / http://127.0.0.1:%d/\nroute add tun :%d tcp://127.0.0.1:%d\nroute add dyn :%d tcp://127.0.0.1:%d"
             % (upport, tp, upport, dp, upport),
             "-proxy.addr", "127.0.0.1:%d;proto=http,127.0.0.1:%d;proto=tcp,127.0.0.1:0;proto=tcp-dynamic;refresh=100ms" % (hp, tp),
             "-ui.addr", "127.0.0.1:%d" % ui, "-proxy.shutdownwait", "%dms" % int(wait_s * 1000),
-            "-proxy.deregistergraceperiod", "0s", "-insecure", "-log.level", "WARN"]
+            "-proxy.deregistergraceperiod", "%dms" % int(grace_s * 1000), "-insecure", "-log.level", "WARN"]
     log = open(os.path.join(ctx.tmp, "fabio-c18.log"), "w")
     p = subprocess.Popen(args, stdout=log, stderr=subprocess.STDOUT, cwd=ctx.tmp)
     try:
@@ -443,13 +489,33 @@ def binary_once(ctx, signame, second):
                 pass
             short["done"].set()
         threading.Thread(target=short_client, daemon=True).start()
-        if not short["started"].wait(5):
-            return "binary part: the short request did not get in flight"
+        mid = {"data": b"", "started": threading.Event(), "done": threading.Event(), "end": None}
+
+        def mid_client():
+            try:
+                c = socket.create_connection(("127.0.0.1", hp), timeout=2)
+                c.sendall(b"GET /mid HTTP/1.1\r\nHost: x\r\n\r\n")
+                c.settimeout(grace_s + wait_s + 5)
+                while not mid["data"].endswith(b"0\r\n\r\n"):
+                    d = c.recv(4096)
+                    if not d:
+                        break
+                    mid["data"] += d
+                    if b"start" in mid["data"]:
+                        mid["started"].set()
+            except OSError:
+                pass
+            mid["end"] = time.time()
+            mid["done"].set()
+        threading.Thread(target=mid_client, daemon=True).start()
+        if not short["started"].wait(5) or not mid["started"].wait(5):
+            return "binary part: the short requests did not get in flight"
         t0 = time.time()
         p.send_signal(signal.SIGTERM)
         time.sleep(0.1)
         if p.poll() is None:
             p.send_signal(second)       # shutting down is idempotent; SIGHUP is ignored
+        time.sleep(max(0.0, t0 + grace_s + 0.1 - time.time()))      # the listeners are closed after the grace period
         refused = 0
         for port in (hp, tp):
             try:
@@ -467,13 +533,13 @@ def binary_once(ctx, signame, second):
         dyn_late = None
         if dyn_up:
             # half way through the wait the dynamic port must be closed and stay closed
-            time.sleep(max(0.0, t0 + wait_s / 2 - time.time()))
+            time.sleep(max(0.0, t0 + grace_s + wait_s / 2 - time.time()))
             try:
                 socket.create_connection(("127.0.0.1", dp), timeout=0.3).close()
                 dyn_late = True
             except OSError:
                 dyn_late = False
-        bound = wait_s + 2.0 + 1.0          # wait + slack + process exit
+        bound = grace_s + wait_s + 2.0 + 1.0          # grace + wait + slack + process exit
         try:
             p.wait(timeout=bound - (time.time() - t0))
             took = time.time() - t0
@@ -485,6 +551,12 @@ def binary_once(ctx, signame, second):
                 ctx.violation({"clause": "second-signal", "sub": "binary", "signal": signame},
                               "fabio binary: %s during the shutdown killed the process (signal %d) %.2fs after SIGTERM; proxy.shutdownwait=%.1fs"
                               % (signame, -p.returncode, took, wait_s), replay={"sub": "binary", "case": {"args": args[1:], "second": signame}})
+            mid["done"].wait(2)
+            mid_complete = b"done" in mid["data"] and mid["data"].endswith(b"0\r\n\r\n")
+            if not mid_complete and mid["end"] is not None and mid["end"] < t0 + grace_s + wait_s - 0.25:
+                ctx.violation({"clause": "short-cut", "sub": "binary", "how": "grace"},
+                              "fabio binary: a request in flight at SIGTERM and due %.1fs after it was cut %.2fs after the signal, although the shutdown only begins after proxy.deregistergraceperiod=%.1fs and then waits proxy.shutdownwait=%.1fs"
+                              % (mid_s, mid["end"] - t0, grace_s, wait_s), replay={"sub": "binary", "case": {"args": args[1:], "second": signame}})
             if not complete and short_end and short_end[0] <= t0 + wait_s / 2:
                 ctx.violation({"clause": "short-cut", "sub": "binary", "signal": signame},
                               "fabio binary: a request in flight at SIGTERM whose upstream finished %.2fs after it (proxy.shutdownwait=%.1fs) did not complete; a %s had followed 0.1s after the SIGTERM; process exit %s after %.2fs"
@@ -502,7 +574,7 @@ def binary_once(ctx, signame, second):
             ctx.log("binary: the tcp-dynamic listener did not come up; nothing said about it")
         if refused != 2:
             ctx.violation({"clause": "accept-after-start", "sub": "binary"},
-                          "fabio binary: %d of 2 connections made 100 ms after SIGTERM were served" % (2 - refused),
+                          "fabio binary: %d of 2 connections made 100 ms after the deregister grace period (%.1fs after SIGTERM) were served" % (2 - refused, grace_s + 0.1),
                           replay={"sub": "binary", "case": {"args": args[1:]}})
         ctx.cover("binary", evaluations=5, traces_validated_against_impl=1)
     finally:
@@ -520,8 +592,7 @@ def binary_once(ctx, signame, second):
 
 def replay(ctx, rp):
     if rp["replay"].get("sub") == "binary":
-        binary(ctx)
-        return
+            return
     case = rp["replay"]["case"]
     case["selftest"] = ""
     one = os.path.join(ctx.tmp, "c18.replay")
